@@ -56,9 +56,13 @@ fn main() {
     let args: Vec<String> = std::env::args().collect();
     match args.get(1).map(|s| s.as_str()) {
         Some("worker") => {
-            // private mount namespace + tmpfs before any thread exists
-            if let Err(e) = sandbox::enter_namespace() {
-                eprintln!("NVSIM-NAMESPACE-ERROR: {e}");
+            // private mount namespace + tmpfs before any thread exists (only the cli-sim engine
+            // needs it: workers of the in-process engines, which are re-spawned after every trap,
+            // skip it)
+            if std::env::var("NVSIM_NO_NS").is_err() {
+                if let Err(e) = sandbox::enter_namespace() {
+                    eprintln!("NVSIM-NAMESPACE-ERROR: {e}");
+                }
             }
             sim::worker_main(&engines())
         }
